@@ -1,6 +1,6 @@
 (* C07: total-force measurement is the inverse of force application.
    Statements only; proofs in TotalForceProofs.v; all about the real-number instance (Rops, PI) of TotalForceModel.v.
-   Notation: RV = vectors, RF = per-atom fields (nat -> vector), RG = groups, RC = components.
+   Notation: RV = vectors, RM = 3x3 matrices, RF = per-atom fields (nat -> vector), RG = groups, RC = components.
    gok mass g      : g is a group of atoms with non-zero total mass (a group whose force can be measured)
    disj g g'       : no atom of g is in g'
    last_ft outs    : the total force reported at the last step of a history (0 for the empty history)
@@ -110,6 +110,24 @@ Theorem C07_inverse_eigenvector : forall (mass : nat -> R) (pos : RF) (ids : lis
   cvc_ft Rops PI mass pos (CEigenvector ids refs evec center) (cvc_apply Rops PI mass pos (CEigenvector ids refs evec center) fc) = fc.
 Proof. exact thm_inverse_eigenvector. Qed.
 Print Assumptions C07_inverse_eigenvector.
+
+(* rotated frames (the default fit of rmsd / eigenvector): the rotation matrix used at the step is an input of the model; whenever it is
+   orthogonal (R R^T = 1), rotating the forces into the frame of the gradients (read_total_forces) inverts rotating the applied forces back *)
+Theorem C07_inverse_rmsd_rotated : forall (mass : nat -> R) (pos : RF) (ids : list nat) (refs : list RV) (rotf : RF -> RM) (jdf : RF -> R) (fc : R),
+  NoDup ids -> length refs = length ids ->
+  (forall v : RV, mvmul Rops (rotf pos) (mtvmul Rops (rotf pos) v) = v) ->
+  rmsdrot_value Rops pos ids refs (rotf pos) <> 0 ->
+  cvc_ft Rops PI mass pos (CRmsdRot ids refs rotf jdf) (cvc_apply Rops PI mass pos (CRmsdRot ids refs rotf jdf) fc) = fc.
+Proof. exact thm_inverse_rmsd_rotated. Qed.
+Print Assumptions C07_inverse_rmsd_rotated.
+
+Theorem C07_inverse_eigenvector_rotated : forall (mass : nat -> R) (pos : RF) (ids : list nat) (refs evec : list RV) (rotf : RF -> RM) (jdf : RF -> R) (fc : R),
+  NoDup ids -> length evec = length ids ->
+  (forall v : RV, mvmul Rops (rotf pos) (mtvmul Rops (rotf pos) v) = v) ->
+  norm2_sum Rops (eig_vec Rops evec) <> 0 ->
+  cvc_ft Rops PI mass pos (CEigenvectorRot ids refs evec rotf jdf) (cvc_apply Rops PI mass pos (CEigenvectorRot ids refs evec rotf jdf) fc) = fc.
+Proof. exact thm_inverse_eigenvector_rotated. Qed.
+Print Assumptions C07_inverse_eigenvector_rotated.
 
 (* a linear combination (any coefficients, not all zero) of inverse-correct components on pairwise disjoint atoms:
    the projection  sum ft_i c_i / sum c_i^2  of the forces applied for f is f *)
@@ -327,6 +345,10 @@ Proof. exact ex_rmsd. Qed.
 Example C07_ex_eigenvector :
   NoDup [0%nat; 1%nat] /\ length ex_evec = length [0%nat; 1%nat] /\ norm2_sum Rops (eig_vec Rops ex_evec) <> 0.
 Proof. exact ex_eigenvector. Qed.
+Example C07_ex_rotated :
+  (forall v : RV, mvmul Rops ex_id (mtvmul Rops ex_id v) = v) /\
+  rmsdrot_value Rops ex_pos [0%nat; 1%nat] ex_refs ex_id <> 0.
+Proof. exact ex_rotated. Qed.
 (* a variable distance(0,1) - distance(2,3): inverse-correct at every geometry, coefficients +-1 *)
 Example C07_ex_variable : forall pos h sb sm kT,
   Forall (fun p => forall fc, cvc_ft Rops PI ex_mass pos (fst p) (cvc_apply Rops PI ex_mass pos (fst p) fc) = fc) (cv_comps (ex_cv h sb sm kT)) /\
